@@ -19,15 +19,16 @@ def _all_calls_in_box(P, F, bounds, name, since=0):
         P.oblige(name, in_box(genome_list(x), bounds))
 
 
-def h_xover(P, box, stub=False):
+def h_xover(P, box, n=2, probability=1.0):
     """real ArithmeticCrossover: children stay inside the box when both parents are (bit-precise float64, symbolic alpha)."""
     from pyhms.core.population import Population
     from pyhms.demes.single_pop_eas import sea
 
     prob, F, maximize, bounds = mk_problem(P, 1, box=box, maximize=False)
-    inds = mk_inds(P, prob, 2, 1, "p", fitness="free", bounds=bounds, allow_inf=False)
-    out = sea.ArithmeticCrossover(probability=1.0, evaluate_fitness=False)(Population.from_individuals(inds))
-    for i in range(2):
+    inds = mk_inds(P, prob, n, 1, "p", fitness="free", bounds=bounds, allow_inf=False)
+    out = sea.ArithmeticCrossover(probability=probability, evaluate_fitness=False)(Population.from_individuals(inds))
+    P.oblige("xover.size", out.size == n)
+    for i in range(n):
         P.observe(f"child{i}", out.genomes[i, 0])
         P.oblige("xover.child_in_box", in_box([out.genomes[i, 0]], bounds))
 
@@ -201,6 +202,8 @@ def cases(tier):
     boxes = BOXES[:4] if tier == "quick" else BOXES
     for box in boxes:
         cs.append(dict(name=f"xover.box{box}", fn=h_xover, params=dict(box=list(box)), portfolio=True, oblig_timeout_s=400, separate=True, cores=3, weight=10, **R))
+        cs.append(dict(name=f"xover.p0.7.n3.box{box}", fn=h_xover, params=dict(box=list(box), n=3, probability=0.7), portfolio=True, oblig_timeout_s=400,
+                       separate=True, cores=3, weight=10, **R))
         for which in ("lhs", "sobol"):
             cs.append(dict(name=f"scale.{which}.box{box}", fn=h_scale, params=dict(which=which, box=list(box)), portfolio=True, oblig_timeout_s=300, cores=3, **R))
     cs.append(dict(name="sample_normal", fn=h_sample_normal, params=dict(box=[-0.1, 0.2]), oblig_timeout_s=60, **R))
